@@ -138,32 +138,87 @@ theorem parse_inverts_header_bytes (ip : InnerParser) (h : Hdr) (wf : h.WF) (hw 
     that `ccmp_decrypt_unicast` assembles from the parsed fields equal the length-prefixed, zero-padded AAD and the
     nonce of IEEE 802.11 computed from the header *bytes* (masked frame control, A1-A3, masked sequence control,
     A4 and the TID when present). Subtypes 4-7 (no frame body) are excluded. -/
-theorem ccmp_aad_nonce_is_ieee (h : Hdr) (wf : h.WF) (hsub : h.subtype < 4 ∨ 8 ≤ h.subtype) :
+theorem ccmp_aad_nonce_is_ieee (h : Hdr) (wf : h.WF) (hsub : h.subtype < 4 ∨ 8 ≤ h.subtype) (hh : h.htc = false) :
     ccmpAad h = .ok (padZero 32 (Spec.be16 (Spec.ccmpAad h.bytes).length ++ Spec.ccmpAad h.bytes), specPrio h.bytes) ∧
     (∀ pn, Spec.ccmpNonce h.bytes pn = [specPrio h.bytes] ++ h.addr2 ++ Spec.pnBytes pn) :=
-  ⟨(ccmpAad_spec h wf hsub).1, (ccmpAad_spec h wf hsub).2.1⟩
+  ⟨(ccmpAad_spec h wf hsub hh).1, (ccmpAad_spec h wf hsub hh).2.1⟩
 
 /-- **Refinement.** For *every* block function `E` with 16-byte output, every well-formed header and every body
     longer than 16 bytes, `ccmp_decrypt_unicast` returns the LLC/SNAP parse of the specification's CCMP
     decapsulation (counter mode + CBC-MAC over B0, AAD, data): null exactly when the MIC does not verify or the
     plaintext is not a well-formed LLC/SNAP payload. -/
 theorem ccmp_refines_spec (ip : InnerParser) (E : BlockFn) (hE : ∀ b, (E b).length = 16) (h : Hdr) (wf : h.WF)
-    (hsub : h.subtype < 4 ∨ 8 ≤ h.subtype) (pload : Bytes) (hn : 16 < pload.length) :
+    (hsub : h.subtype < 4 ∨ 8 ≤ h.subtype) (hh : h.htc = false) (pload : Bytes) (hn : 16 < pload.length) :
     ∃ p', ccmpDecrypt ip E h pload = .ok (snapResult ip (Spec.ccmpDecap E h.bytes pload), p') :=
-  ccmpDecrypt_refines ip E hE h wf hsub pload hn
+  ccmpDecrypt_refines ip E hE h wf hsub hh pload hn
 
 /-- **Round trip (specification level)** for every block function, header, 48-bit PN, key-id byte and data. -/
 theorem ccmp_spec_roundtrip (E : BlockFn) (hE : ∀ b, (E b).length = 16) (hb : Bytes) (pn : Nat) (hpn : pn < 2 ^ 48)
     (kid : UInt8) (m : Bytes) : Spec.ccmpDecap E hb (Spec.ccmpEncap E hb pn kid m) = some m :=
   spec_ccmp_roundtrip E hE hb pn hpn kid m
 
+/-- the MAC header on the air: the fields libtins parses and, for +HTC frames (QoS data with the Order bit), the
+    4-octet HT Control field the standard puts behind the QoS control field -/
+def airHeader (h : Hdr) (htc : Bytes) : Bytes := h.bytes ++ (if h.htc then htc else [])
+
+/-- `Dot11::from_bytes` followed by the data-frame branch of `WPA2Decrypter::decrypt` -/
+def decryptFrameBytes (ip : InnerParser) (aes : Bytes → BlockFn) (keys : KeyTable) (f : Bytes) : Option (Bool × Frame) :=
+  match parseFrame ip f with
+  | .ok (.data fr) =>
+    match wpa2DecryptData ip aes keys fr with
+    | .ok r => some r
+    | _ => none
+  | _ => none
+
+/-- **Round trip (CCMP), full statement**: every header variant of IEEE 802.11 including +HTC frames — the frame made
+    of the header on the air and the reference CCMP encapsulation over it is decrypted to exactly the payload.
+    FALSE of libtins (known finding KF-C09-8): `Dot11QoSData` does not know the HT Control field, so its four octets
+    are taken for the start of the CCMP header, and the AAD keeps the Order bit the standard masks for QoS data. -/
+def ccmp_roundtrip_full : Prop :=
+  ∀ (ip : InnerParser) (aes : Bytes → BlockFn) (keys : KeyTable) (k : SessionKeys) (h : Hdr) (htc : Bytes),
+    h.WF → (h.subtype < 4 ∨ 8 ≤ h.subtype) → htc.length = 4 → h.wep = true → findKeys keys h = some k → k.isCcmp = true →
+    (∀ b, (aes ((k.ptk.drop 32).take 16) b).length = 16) →
+    ∀ (pn : Nat), pn < 2 ^ 48 → ∀ (kid : UInt8) (m : Bytes) (s : Snap), snapParse ip m = .ok s →
+      ∃ fr', decryptFrameBytes ip aes keys
+          (airHeader h htc ++ Spec.ccmpEncap (aes ((k.ptk.drop 32).take 16)) (airHeader h htc) pn kid m) = some (true, fr') ∧
+        fr'.inner = .snap s ∧ fr'.hdr.wep = false
+
+section HtcWitness
+private def wIp : InnerParser := fun _ r => .ok (.raw r)
+private def wAes : Bytes → BlockFn := fun _ b => (b ++ List.replicate 16 0).take 16
+private def wKeys : SessionKeys := ⟨List.replicate 80 7, true⟩
+/-- QoS Data, to-DS, protected, Order bit set: on the air a +HTC frame -/
+private def wHdr : Hdr := { fc0 := 0x88, fc1 := 0xc1, addr1 := [1, 1, 1, 1, 1, 1], addr2 := [2, 2, 2, 2, 2, 2],
+                            addr3 := [3, 3, 3, 3, 3, 3], sc0 := 0, sc1 := 0, qos := some (5, 0) }
+private def wTable : KeyTable := [(extractAddrPair wHdr, wKeys)]
+private def wMsg : Bytes := [0xaa, 0xaa, 3, 0, 0, 0, 0x88, 0xb5, 1, 2, 3, 4]
+private def wFrame : Bytes :=
+  airHeader wHdr [0, 0, 0, 0] ++ Spec.ccmpEncap (wAes ((wKeys.ptk.drop 32).take 16)) (airHeader wHdr [0, 0, 0, 0]) 5 0x20 wMsg
+
+set_option maxRecDepth 20000 in
+private theorem wFrame_not_decrypted : (decryptFrameBytes wIp wAes wTable wFrame).map (·.1) = some false := by decide
+
+/-- refutation on a concrete witness (a +HTC frame of the same shape is replayed on the real code by the check on
+    every run): QoS Data with the Order bit, HT Control 00 00 00 00 -/
+theorem ccmp_roundtrip_full_fails : ¬ ccmp_roundtrip_full := by
+  intro hfull
+  have wf : wHdr.WF := ⟨rfl, rfl, rfl, rfl, by decide, by decide, fun _ => rfl⟩
+  obtain ⟨fr', h1, _, _⟩ := hfull wIp wAes wTable wKeys wHdr [0, 0, 0, 0] wf (by decide) rfl (by decide) (by decide) rfl
+    (fun b => by simp [wAes]) 5 (by decide) 0x20 wMsg ⟨0xaa, 0xaa, 3, 0, 0x88b5, .raw [1, 2, 3, 4]⟩ rfl
+  have h2 := wFrame_not_decrypted
+  unfold wFrame at h2
+  rw [h1] at h2
+  cases h2
+end HtcWitness
+
 /-- **Round trip.** For every block cipher `aes` (16-byte blocks), every well-formed protected header variant, every
     48-bit packet number, key-id byte and LLC/SNAP payload `m` (parsing to `s`): the frame made of the header bytes
     and the reference CCMP encapsulation of `m` under the temporal key parses to that header, and
     `WPA2Decrypter::decrypt` — whenever its key lookup yields CCMP session keys with that temporal key — returns
-    true, installs exactly `s` and clears the protected bit. Independent of AES. -/
-theorem ccmp_roundtrip (ip : InnerParser) (aes : Bytes → BlockFn) (keys : KeyTable) (k : SessionKeys) (h : Hdr)
-    (wf : h.WF) (hsub : h.subtype < 4 ∨ 8 ≤ h.subtype) (hw : h.wep = true)
+    true, installs exactly `s` and clears the protected bit. Independent of AES.
+    Excluded from the full statement `ccmp_roundtrip_full`: +HTC frames (`h.htc`: QoS data with the Order bit). -/
+theorem ccmp_roundtrip_partial (ip : InnerParser) (aes : Bytes → BlockFn) (keys : KeyTable) (k : SessionKeys) (h : Hdr)
+    (wf : h.WF) (hsub : h.subtype < 4 ∨ 8 ≤ h.subtype) (hh : h.htc = false) (hw : h.wep = true)
     (hk : findKeys keys h = some k) (hc : k.isCcmp = true)
     (hE : ∀ b, (aes ((k.ptk.drop 32).take 16) b).length = 16)
     (pn : Nat) (hpn : pn < 2 ^ 48) (kid : UInt8) (m : Bytes) (s : Snap) (hs : snapParse ip m = .ok s) :
@@ -190,7 +245,7 @@ theorem ccmp_roundtrip (ip : InnerParser) (aes : Bytes → BlockFn) (keys : KeyT
     omega
   have hbne : body ≠ [] := by intro h0; rw [h0] at hblen; simp at hblen
   refine ⟨parseFrame_bytes ip h wf hw body hbne, ?_, clearWep_wep h⟩
-  obtain ⟨p', hd⟩ := ccmpDecrypt_refines ip _ hE h wf hsub body hblen
+  obtain ⟨p', hd⟩ := ccmpDecrypt_refines ip _ hE h wf hsub hh body hblen
   rw [spec_ccmp_roundtrip _ hE h.bytes pn hpn kid m] at hd
   unfold wpa2DecryptData
   simp only [Inner.findRaw, hw, hk, Bool.not_true, Bool.false_eq_true, if_false]
@@ -202,7 +257,8 @@ theorem ccmp_roundtrip (ip : InnerParser) (aes : Bytes → BlockFn) (keys : KeyT
     session keys, the MIC of the body verifies under those keys: the specification's decapsulation over the header
     bytes succeeds, and the new payload is the parse of exactly that plaintext. -/
 theorem ccmp_reject (ip : InnerParser) (aes : Bytes → BlockFn) (keys : KeyTable) (fr fr' : Frame) (wf : fr.hdr.WF)
-    (hsub : fr.hdr.subtype < 4 ∨ 8 ≤ fr.hdr.subtype) (k : SessionKeys) (hk : findKeys keys fr.hdr = some k)
+    (hsub : fr.hdr.subtype < 4 ∨ 8 ≤ fr.hdr.subtype) (hh : fr.hdr.htc = false) (k : SessionKeys)
+    (hk : findKeys keys fr.hdr = some k)
     (hc : k.isCcmp = true) (hE : ∀ b, (aes ((k.ptk.drop 32).take 16) b).length = 16)
     (h : wpa2DecryptData ip aes keys fr = .ok (true, fr')) :
     ∃ pload m s, fr.inner.findRaw = some pload ∧
@@ -219,7 +275,7 @@ theorem ccmp_reject (ip : InnerParser) (aes : Bytes → BlockFn) (keys : KeyTabl
     · unfold decryptUnicast at h
       rw [if_pos hc] at h
       by_cases hn : 16 < pload.length
-      · obtain ⟨p', hd⟩ := ccmpDecrypt_refines ip _ hE fr.hdr wf hsub pload hn
+      · obtain ⟨p', hd⟩ := ccmpDecrypt_refines ip _ hE fr.hdr wf hsub hh pload hn
         rw [hd] at h
         cases hdec : Spec.ccmpDecap (aes ((k.ptk.drop 32).take 16)) fr.hdr.bytes pload with
         | none => simp [hdec, snapResult] at h
